@@ -73,6 +73,8 @@ def check_frames(sx, air, lri, lrt, tag=""):
     """every frame on the air: start byte iff 106A, length byte, and the
     transport data field within what the receiver announced"""
     for f in air.frames:
+        if f.sender == 'X':
+            continue            # not sent by either side
         who = "I>T" if f.sender == 'I' else "T>I"
         name = f.kind or f.pdu or "?"
         sx.check(f.start_byte_ok, "frame-format:%s:%s:start-byte" % (who, name))
@@ -84,12 +86,15 @@ def check_frames(sx, air, lri, lrt, tag=""):
 
 
 def conversation(sx, tech, brs, lri, lrt, did, nad, shapes, faults,
-                 rwt=8, window=40, ex_timeout=EX_TIMEOUT, release=True):
+                 rwt=8, window=40, ex_timeout=EX_TIMEOUT, release=True,
+                 foreign=None):
     """one conversation: activate both sides, n application exchanges in
     each direction under a fault script, release.
 
     shapes: options; one option = [[ka, da, kb, db], ...]: the initiator's
-    payload k has length ka*miu_i + da, the target's reply kb*miu_t + db."""
+    payload k has length ka*miu_i + da, the target's reply kb*miu_t + db.
+    foreign: None or dict(kinds, frame_did, budget): frames addressed to
+    another device appear while the target waits (env.air arm_foreign)."""
     nfc.dep.os = _FixedOs
     shape = sx.pick("shape", shapes)
     n = len(shape)
@@ -138,6 +143,9 @@ def conversation(sx, tech, brs, lri, lrt, did, nad, shapes, faults,
         if I['gb'] is None:
             sx.check(False, "activation-failed:initiator")
         air.arm_faults(skip=1)      # the DEP_REQ that ends the target's listen()
+        if foreign:
+            air.arm_foreign(foreign['kinds'], did, foreign['frame_did'],
+                            foreign.get('budget', 1))
         for k in range(n):
             try:
                 I['recv'].append(ini.exchange(A[k], ex_timeout))
@@ -173,6 +181,16 @@ def conversation(sx, tech, brs, lri, lrt, did, nad, shapes, faults,
         if f.fault:
             sx.reach("fault:%s:%s" % (describe(f).split(":")[0], FAULT_NAMES[f.fault]))
 
+    # ---- frames addressed to another device leave no trace
+    bad = "wrong-data"
+    if air.foreign_frames:
+        fcfg = "tgt-nodid:frame-did" if did is None else \
+            "tgt-did:frame-otherdid" if foreign['frame_did'] else "tgt-did:frame-nodid"
+        x = air.foreign_frames[-1]
+        bad = "foreign-frame-accepted:%s:%s" % (x.kind, fcfg)
+        for x in air.foreign_frames:
+            sx.reach("foreign:%s:%s" % (x.kind, fcfg))
+
     # ---- the air interface
     tag = (":did" if did is not None else "") + (":nad" if nad is not None else "")
     if T['end'] == "frame-length-overflow":
@@ -190,20 +208,29 @@ def conversation(sx, tech, brs, lri, lrt, did, nad, shapes, faults,
     started = len(I['recv']) + (1 if I['end'] else 0)
     for j, data in enumerate(T['recv']):
         if j >= started:
-            sx.check(False, "wrong-data:target-received-extra-payload:%s:%s" % (cls, why))
+            sx.check(False, bad + ":target-received-extra-payload:%s:%s" % (cls, why))
         if len(data) != len(A[j]):
-            sx.check(False, "wrong-data:target-received-wrong-length:%s:%s" % (cls, why))
-        sx.check(sx.eq(data, A[j]), "wrong-data:target-received-wrong-content:%s:%s" % (cls, why))
+            sx.check(False, bad + ":target-received-wrong-length:%s:%s" % (cls, why))
+        sx.check(sx.eq(data, A[j]), bad + ":target-received-wrong-content:%s:%s" % (cls, why))
     for j, data in enumerate(I['recv']):
         if j >= T['sent']:
-            sx.check(False, "wrong-data:initiator-received-unsent-payload:%s:%s" % (cls, why))
+            sx.check(False, bad + ":initiator-received-unsent-payload:%s:%s" % (cls, why))
         if len(data) != len(B[j]):
-            sx.check(False, "wrong-data:initiator-received-wrong-length:%s:%s" % (cls, why))
-        sx.check(sx.eq(data, B[j]), "wrong-data:initiator-received-wrong-content:%s:%s" % (cls, why))
+            sx.check(False, bad + ":initiator-received-wrong-length:%s:%s" % (cls, why))
+        sx.check(sx.eq(data, B[j]), bad + ":initiator-received-wrong-content:%s:%s" % (cls, why))
     if len(T['recv']) < len(I['recv']):
-        sx.check(False, "wrong-data:exchange-completed-without-delivery:%s:%s" % (cls, why))
+        sx.check(False, bad + ":exchange-completed-without-delivery:%s:%s" % (cls, why))
+
+    for x in air.foreign_frames:
+        if x.answer is not None:
+            sx.check(False, "foreign-frame-answered:%s:%s" % (x.kind, fcfg))
 
     # ---- completion
+    if air.foreign_frames and cls in ('clean', 'single') and ex_timeout >= EX_TIMEOUT:
+        if I['end'] is not None:
+            sx.check(False, bad + ":initiator-failed:" + cls)
+        if T['end'] != t_end_ok or len(T['recv']) != n:
+            sx.check(False, bad + ":target-stopped:" + cls)
     if cls == 'clean':
         if I['end'] is not None:
             sx.check(False, "fault-free-exchange-failed:initiator:" + I['end'])
@@ -232,6 +259,12 @@ def conversation(sx, tech, brs, lri, lrt, did, nad, shapes, faults,
            and not f.fault) > 4 and I['end'] is None:
         sx.reach("pni-wrap")
     sx.reach("framing:" + want)
+    more = {'I': False, 'T': False}
+    for f in air.frames:
+        if f.sender in more and f.kind in ("INF", "INF+") and not f.fault:
+            sx.reach("chunk:%s:%s:pni%d" % ("I>T" if f.sender == 'I' else "T>I",
+                                            "cont" if more[f.sender] else "first", f.pni))
+            more[f.sender] = f.kind == "INF+"
     sx.reach("target-ends:" + str(T['end']))
     if did is not None:
         sx.reach("did")
@@ -334,6 +367,43 @@ def partitions(tier):
     # ---- no release: the initiator just switches its field off
     conv("field-off:212F:f1", [[M1 + M1, ONE + ONE]], 1 if quick else 2,
          tech='212F', release=False)
+    # ---- chained payloads starting at every PNI: p single-PDU exchanges, then
+    # 2 or 3 chunks initiator->target, target->initiator, and both, then one
+    # more single exchange; a payload of 5 chunks each way
+    def at_pni(p):
+        pre = [ONE + ONE] * p
+        return [pre + [a + b, ONE + ONE] for a, b in
+                ((M1, ONE), (MM1, ONE), (ONE, M1), (ONE, MM1), (M1, M1), (MM1, MM1))]
+    conv("pni:106A:f0", at_pni(0) + at_pni(1) + at_pni(2) + at_pni(3) +
+         [[[4, 1, 0, 1]], [[0, 1, 4, 1]], [ONE + ONE, [4, 1, 4, 1]]], 0)
+    for p in range(4):
+        tech = ('106A', '212F')[p & 1]
+        if quick:
+            conv("pni:%s:p%d:f1" % (tech, p), at_pni(p)[1::2], 1, tech=tech)
+        else:
+            conv("pni:%s:p%d:f0" % (('212F', '106A')[p & 1], p), at_pni(p), 0,
+                 tech=('212F', '106A')[p & 1])
+            conv("pni:%s:p%d:f1" % (tech, p), at_pni(p), 1, tech=tech)
+            conv("pni:%s:p%d:f2" % (tech, p), at_pni(p)[1::2], 2, tech=tech)
+    # ---- frames addressed to another device while the target waits
+    allk = ["INF", "ATN", "DSL", "RLS"]
+    talk = [[ONE + ONE, M1 + M1, ONE + ONE]]
+    conv("foreign:nodid:106A:f0", talk, 0, foreign=dict(kinds=allk, frame_did=True))
+    conv("foreign:nodid:212F:f1", talk, 1, tech='212F',
+         foreign=dict(kinds=allk, frame_did=True))
+    conv("foreign:did:otherdid:106A:f0", talk, 0, did=5,
+         foreign=dict(kinds=allk, frame_did=True))
+    conv("foreign:did:nodid:212F:f0", talk, 0, did=1, tech='212F',
+         foreign=dict(kinds=allk, frame_did=False))
+    if not quick:
+        conv("foreign:nodid:106A:f1:x2", talk, 1,
+             foreign=dict(kinds=allk, frame_did=True, budget=2))
+        conv("foreign:did:otherdid:212F:f1", talk, 1, did=255, tech='212F',
+             foreign=dict(kinds=allk, frame_did=True))
+        conv("foreign:did:nodid:106A:f1", talk, 1, did=9,
+             foreign=dict(kinds=allk, frame_did=False))
+        conv("foreign:nodid:106A:f2", [[M1 + M1]], 2,
+             foreign=dict(kinds=["INF", "RLS"], frame_did=True))
     # ---- response waiting times other than the default
     conv("rwt0:106A:f1", [[M1 + ONE]], 1, rwt=0)
     if not quick:
@@ -346,6 +416,11 @@ MUST_REACH = ["script:clean", "script:single", "script:multi", "completed:clean"
               "chaining:initiator", "chaining:target", "pni-wrap",
               "framing:106A", "framing:212F", "framing:424F", "did", "nad",
               "deadline-expired", "target-ends:None", "target-ends:BrokenLinkError",
+              ] + ["chunk:%s:%s:pni%d" % (d, c, p) for d in ("I>T", "T>I")
+                   for c in ("first", "cont") for p in range(4)] + [
+              "foreign:%s:%s" % (k, c) for k in ("INF", "ATN", "DSL", "RLS")
+              for c in ("tgt-nodid:frame-did", "tgt-did:frame-otherdid",
+                        "tgt-did:frame-nodid")] + [
               "fault:req-INF:lose", "fault:req-INF:corrupt",
               "fault:req-INF+:lose", "fault:req-INF+:corrupt",
               "fault:rsp-INF:lose", "fault:rsp-INF:corrupt",
@@ -366,13 +441,26 @@ BOUNDS = {
     "framing; conversations of 2 and 3 exchanges (PNI wraps) with <= 2 / 1 "
     "faults; LR pairs (0,3) (1,2) (2,1) (3,0) (3,3) with lengths miu, miu+1 "
     "and 1 fault; PSL to 212F/424F; DID=1 and NAD=2 with 1 fault; RWT code "
-    "0 and 8; one conversation ended by field-off instead of release; one variant with a 77.5 ms deadline (RWT 77.33 ms)",
+    "0 and 8; chained payloads of 2 and 3 frames starting at every PNI 0..3 "
+    "(p single-frame exchanges first) initiator->target, target->initiator "
+    "and both in one exchange, fault free (24 conversations, plus 5-frame "
+    "payloads each way) and half of them with 1 fault: every (direction, "
+    "first/continuation frame, PNI) combination is a must-reach label; "
+    "frames addressed to another device (DEP_REQ INF with symbolic payload, "
+    "symbolic DID byte and symbolic PNI, ATN, DSL_REQ, RLS_REQ) seen by the "
+    "waiting target before any one of the initiator's requests of a 3-exchange "
+    "conversation: target without DID / frame with DID, target with DID / "
+    "other DID, target with DID / frame without DID, 0 faults (1 fault for "
+    "the first configuration); one conversation ended by field-off instead of release; one variant with a 77.5 ms deadline (RWT 77.33 ms)",
     "thorough": "as quick with <= 3 faults for all 36 length pairs "
     "{1, miu-1, miu, miu+1, 2miu, 2miu+1}^2 of one exchange in both framings, "
     "2..4 exchanges with <= 2 faults (<= 3 for five of them, <= 4 for two "
     "single exchanges), all 15 other "
     "LR pairs with 4 length shapes and <= 2 faults, PSL with <= 2 faults, "
-    "DID/NAD/DID+NAD also at 212F with <= 2 faults, RWT code 14",
+    "DID/NAD/DID+NAD also at 212F with <= 2 faults, RWT code 14, all PNI "
+    "position conversations with 0 and 1 fault (half with 2), foreign "
+    "frames in all three DID configurations with 1 fault, two foreign frames "
+    "per conversation, and with 2 faults on a single chained exchange",
 }
 OUTSIDE = [
     "faults on the activation frames (ATR, PSL) and on the first DEP_REQ, "
@@ -385,6 +473,9 @@ OUTSIDE = [
     "payloads longer than 2*miu+1 (three frames) and conversations longer "
     "than 4 exchanges; LR other than 64 with more than 2 faults",
     "a corrupted frame that the receiver's CRC check does not detect",
+    "foreign frames other than the four kinds above (e.g. chained foreign "
+    "payloads, foreign responses), more than two per conversation, and foreign "
+    "frames before the target's first exchange() has returned",
     "target-side deadline expiry (target exchange() time-out is 30 s and "
     "checked not to bind); the initiator retrying after a reported failure",
 ]
@@ -409,6 +500,10 @@ ASSUMPTIONS = [
     "[DID] [NAD] payload (LEN = LR+1 <= 255), so frame length <= LR + 1 "
     "(+1 start byte at 106A)",
     "os.urandom inside nfc.dep returns a fixed pattern (NFCID3)",
+    "a frame for another device (env.air arm_foreign) reaches the waiting "
+    "target intact and in no virtual time, immediately before a request of "
+    "the initiator; anything the target transmits in reply is recorded as a "
+    "violation and reaches nobody",
     "the application on the target side answers every received payload with "
     "the next reply and stops when exchange() returns None or raises; the "
     "initiator releases the target (real deactivate()) after its last "
